@@ -63,6 +63,9 @@ def classify_owner(ctx: Optional[Ctx], fn: FuncInfo, defs: Defs, name: str, dept
     vals = defs.all_values(name)
     unp = defs.unpack.get(name, [])
     if name in defs.params and not vals:
+        fargs = fn.node.args  # type: ignore[attr-defined]
+        if (fargs.kwarg is not None and fargs.kwarg.arg == name) or (fargs.vararg is not None and fargs.vararg.arg == name):
+            return "local"  # **kwargs / *args are containers created for this very call
         return "param"
     if vals or unp or name in defs.other_defs:
         owners = set()
@@ -162,6 +165,7 @@ def run(ctx: Ctx, rep: Report) -> None:
     rep.rule("C14-R1", "every store to state shared between operations is a justified, operation-independent instance", floor=10)
     rep.rule("C14-R2", "no check-then-act across an await on shared locations", floor=4)
     rep.rule("C14-R3", "every exchange owns its endpoint, protocol object and future", floor=2)
+    rep.rule("C14-R5", "no coroutine function or generator is memoised (lru_cache / cache / cached_property hands the same, already awaited coroutine object to the second concurrent caller)", floor=10)
     rep.rule("C14-R4", "concurrent first use: whatever flags another task has set, a task reads the discovery cache only after it was filled (shared with C12-R1)", floor=2)
     rep.assumptions += [
         "asyncio runs one task at a time between awaits (cooperative scheduling)",
@@ -231,6 +235,9 @@ def run(ctx: Ctx, rep: Report) -> None:
         elif cls is not None and ctx.r.is_subclass(cls, sm_base) and fn.name == "set_engine_timing":
             reason = "timing cache keyed by engine id; its values are the discovery data handed in by the MPM (C10-R2), idempotent across operations"
             deps = []
+        elif callers_all_are_timing_setters(ctx, fn, sm_base):
+            reason = "timing cache keyed by engine id, written through a helper that only the security model's set_engine_timing calls (C10-R2 decides what is stored and read back)"
+            deps = []
         elif cls is not None and cls.name == "Loader" and st.path == "self.discovered_plugins":
             reason = "plug-in table of a Loader object created per factory call (never shared)"
             deps = []
@@ -283,6 +290,9 @@ def run(ctx: Ctx, rep: Report) -> None:
     own_writes = [s for s in stores if s.fn == send]
     rep.check(not own_writes, "C14-R2", send.site(), "the sender-calling method keeps request id, PDU and response in locals only", f"{own_writes}", key=f"{send.key}|send-shared-write")
 
+    # ------------------------------------------------------------ R5
+    check_no_memoised_coroutines(ctx, rep)
+
     # ------------------------------------------------------------ R3
     from .c13 import default_sender
 
@@ -305,6 +315,54 @@ def run(ctx: Ctx, rep: Report) -> None:
         rep.check(not mod_inst, "C14-R3", proto.module.path, "no protocol object lives at module level", f"{mod_inst}", key=f"{proto.key}|module-instance")
     # module level mutable globals written by functions were covered by R1 (owner 'module'); list them for the record
     rep.analysed["module_level_writes"] = [repr(s) for s in stores if s.owner == "module"]
+
+
+MEMOISERS = ("lru_cache", "cache", "cached_property", "alru_cache", "memoize", "memoized")
+
+
+def memoising_decorators(node: ast.AST) -> List[str]:
+    out = []
+    for d in getattr(node, "decorator_list", []):
+        target = d.func if isinstance(d, ast.Call) else d
+        name = ast.unparse(target).split(".")[-1]
+        if name in MEMOISERS:
+            out.append(ast.unparse(d))
+    return out
+
+
+def check_no_memoised_coroutines(ctx: Ctx, rep: Report) -> None:
+    """
+    `@lru_cache` on `async def f` caches the coroutine *object* f() returns, not its result: the first caller awaits
+    it, every later (or concurrent) caller with the same arguments gets the same object and fails with "cannot reuse
+    already awaited coroutine" / "coroutine is being awaited already".  The same holds for generator functions.
+    One obligation per coroutine function / generator of the package; the matcher is exercised on a built-in example.
+    """
+    sample = ast.parse("import functools\n@functools.lru_cache(maxsize=None)\nasync def f(x):\n    return x\n").body[1]
+    rep.check(bool(memoising_decorators(sample)), "C14-R5", "(built-in example)", "the matcher recognises `@functools.lru_cache(maxsize=None)` on an `async def`", key="selftest|memoiser-matcher")
+    for fn in ctx.u.functions.values():
+        if fn.module.external or not fn.module.name.startswith("puresnmp"):
+            continue
+        is_gen = any(isinstance(n, (ast.Yield, ast.YieldFrom)) for n in own_nodes(fn.node))
+        if not (fn.is_async or is_gen):
+            continue
+        memo = memoising_decorators(fn.node)
+        rep.check(not memo, "C14-R5", fn.site(), f"{fn.qualname} ({'coroutine function' if fn.is_async else 'generator'}) is not memoised", f"decorated with {memo}", key=f"{fn.key}|memoised-coroutine")
+
+
+def callers_all_are_timing_setters(ctx: Ctx, fn: FuncInfo, sm_base: ClassInfo, depth: int = 0) -> bool:
+    """Every call of *fn* inside the repository comes (through at most two helpers) from a security model's set_engine_timing."""
+    if depth > 2:
+        return False
+    callers = [c for c, _ in ctx.callers_of(fn) if not c.module.external]
+    if not callers:
+        return False
+    for c in callers:
+        ccls = c.cls
+        if c.name == "set_engine_timing" and ccls is not None and ctx.r.is_subclass(ccls, sm_base):
+            continue
+        if not callers_all_are_timing_setters(ctx, c, sm_base, depth + 1):
+            return False
+    return True
 
 
 def param_owner_reason(ctx: Ctx, fn: FuncInfo, param: str) -> Optional[str]:
